@@ -153,6 +153,9 @@ class Fn:
             if e.id in self.mod.globs:
                 if e.id not in self.mod.used_globs: self.mod.used_globs.append(e.id)
                 return "g_"+e.id
+            if e.id in getattr(self.mod,"global_oracles",()):
+                # a module-level variable that is not a constant (the shared reserved-word set): whatever the py_call parameter says it holds now
+                t=self.tmp(); binds.append("%s <- py_call (VFun (of_string %s)) (VList []) ;; "%(t,cq(e.id))); return t
             raise Unsupported("name "+e.id)
         if isinstance(e,ast.Attribute) and isinstance(e.value,ast.Name) and e.value.id not in self.vars and e.value.id in getattr(self.mod,"xmods",{}):
             xm=self.mod.xmods[e.value.id][0]
@@ -177,6 +180,10 @@ class Fn:
         if isinstance(e,ast.BinOp) and isinstance(e.op,ast.Mult) and isinstance(e.left,ast.Constant) and isinstance(e.left.value,str):
             self.mod.need_lib2=True
             a=self.ex(e.left,binds); b=self.ex(e.right,binds); t=self.tmp(); binds.append("%s <- py_str_repeat %s %s ;; "%(t,a,b)); return t
+        if isinstance(e,ast.BinOp) and isinstance(e.op,ast.BitOr) and getattr(self.mod,"sets_as_lists",False):
+            # a set is represented by a list of its elements (only membership may be asked of it): union is concatenation
+            self.mod.need_lib2=True
+            a=self.ex(e.left,binds); b=self.ex(e.right,binds); t=self.tmp(); binds.append("%s <- py_set_union %s %s ;; "%(t,a,b)); return t
         if isinstance(e,ast.BinOp) and type(e.op) in BIN:
             a=self.ex(e.left,binds); b=self.ex(e.right,binds); t=self.tmp(); binds.append("%s <- %s %s %s ;; "%(t,BIN[type(e.op)],a,b)); return t
         if isinstance(e,ast.Compare) and len(e.ops)==1:
@@ -276,6 +283,10 @@ class Fn:
             pos="(VList [%s])"%";".join(self.ex(a,binds) for a in e.args)
             kw="(VDict [%s])"%";".join("(S_ %s, %s)"%(cq(k.arg),self.ex(k.value,binds)) for k in e.keywords)
             t=self.tmp(); binds.append("%s <- py_call (VFun (of_string %s)) (VTuple [%s; %s]) ;; "%(t,cq(f.id),pos,kw)); return t
+        if isinstance(f,ast.Attribute) and isinstance(f.value,ast.Name) and f.value.id not in self.vars and (f.value.id+"."+f.attr) in getattr(self.mod,"oracles",()):
+            pos="(VList [%s])"%";".join(self.ex(a,binds) for a in e.args)
+            kw="(VDict [%s])"%";".join("(S_ %s, %s)"%(cq(k.arg),self.ex(k.value,binds)) for k in e.keywords)
+            t=self.tmp(); binds.append("%s <- py_call (VFun (of_string %s)) (VTuple [%s; %s]) ;; "%(t,cq(f.value.id+"."+f.attr),pos,kw)); return t
         # super(X, self).__init__(...)
         if isinstance(f,ast.Attribute) and isinstance(f.value,ast.Call) and isinstance(f.value.func,ast.Name) and f.value.func.id=="super":
             X=f.value.args[0].id; base=None
@@ -417,6 +428,7 @@ class Fn:
             if f.id=="int": return lib("py_int",A(0),A(1) if len(e.args)>1 else "VNone")
             if f.id=="str": return lib("py_str",A(0))
             if f.id=="list": return lib("py_list",A(0))
+            if f.id=="set" and len(e.args)==1 and getattr(self.mod,"sets_as_lists",False): return lib("py_list",A(0))
             if f.id=="range" and len(e.args)==1: return lib("py_range",A(0))
             if f.id=="any": return lib("py_any",A(0))
             if f.id=="bidict": return lib("new_bidict",A(0))
@@ -592,12 +604,12 @@ class Fn:
         return "(* REFUSED by the translator: %s *)\nDefinition %s (py_call : pyval -> pyval -> res) (fuel:nat) %s : res := Exc Unsupported."%(reason.replace("*)","* )"),gname(self.cls,self.fn.name),ps)
 
 
-def translate_module(path, pymod, wanted=None, oracles=(), xmods=None, external=(), requires=(), method_oracles=(), xfuncs=None, thread_oracles=None, method_thread_oracles=(), io_lists=False,
+def translate_module(path, pymod, wanted=None, oracles=(), xmods=None, external=(), requires=(), method_oracles=(), xfuncs=None, thread_oracles=None, method_thread_oracles=(), io_lists=False, global_oracles=(), sets_as_lists=False,
                      param_classes=None, sub_callbacks=False, field_classes=None):
     """returns (coq text, translated names, {failed name: reason}).
     xmods: {python module name as written in the source: (python module object, Coq module holding its generated functions)};
     external: functions of this module that another generated unit already defines (named in `requires`): translated for their signature, not emitted"""
-    mod=Mod(path,pymod); mod.oracles=set(oracles); mod.method_oracles=set(method_oracles)
+    mod=Mod(path,pymod); mod.oracles=set(oracles); mod.method_oracles=set(method_oracles); mod.global_oracles=set(global_oracles); mod.sets_as_lists=sets_as_lists
     mod.xmods={k:(Mod(v[0].__file__,v[0]),v[1]) for k,v in (xmods or {}).items()}
     mod.xfuncs={k:(Mod(v[0].__file__,v[0]),v[1]) for k,v in (xfuncs or {}).items()}
     for k,v in (xfuncs or {}).items():
@@ -640,7 +652,7 @@ def translate_module(path, pymod, wanted=None, oracles=(), xmods=None, external=
             t,_,_=E.pattern(pat,0); rx.append("Definition RX_%s : re := %s."%(nm,t))
         hdr_extra += ["Require Import Rx PyRe.", E.set_defs()] + rx
     if getattr(mod,"need_hash",False): hdr_extra.append("Require Import PyHash.")
-    if any(w in emitted_text for w in ("unpack3","py_try_ve","py_str_repeat","py_b2a_hex_encode","py_lstrip","py_rstrip","py_split_ws","py_stitch","py_items")): hdr_extra.append("Require Import PyLib2.")
+    if any(w in emitted_text for w in ("unpack3","py_try_ve","py_str_repeat","py_b2a_hex_encode","py_lstrip","py_rstrip","py_split_ws","py_stitch","py_items","py_set_union")): hdr_extra.append("Require Import PyLib2.")
     for r in requires: hdr_extra.append("Require Import %s."%r)
     for k,(xm,cm) in mod.xmods.items(): hdr_extra.append("Require %s."%cm)
     for cm in sorted(set(v[1] for v in mod.xfuncs.values())|set(v[2] for v in mod.field_classes.values())): hdr_extra.append("Require %s."%cm)
